@@ -35,6 +35,8 @@ def owners(clause, e):
     carrier_variant = e.get("variant", False)
     if clause.startswith("c01_"):
         out.add("C01")
+        if carrier_variant and clause in ("c01_pure", "c01_again"):
+            return {"C01", "C15"}      # purity does not depend on which carrier exposed it
     elif clause == "c02":
         out.add("C02")
     elif clause == "rule":
@@ -101,7 +103,7 @@ class Recorder:
             obs.pop("msg", None)
             eid = len(self.events) + 1
             e = {"id": eid, "sid": self.sid, "call": call, "rel": rel, "lenient": lenient, "obs": obs,
-                 "conc": json.dumps(cc, sort_keys=True)}
+                 "conc": json.dumps(cc, sort_keys=True), "judge": extra.get("judge", "all")}
             for k in ("variant", "variant_label", "exp"):
                 if k in extra:
                     e[k] = extra[k]
@@ -113,7 +115,7 @@ class Recorder:
 
 
 def tlc_view(e):
-    return {k: e[k] for k in ("id", "sid", "call", "rel", "lenient", "obs")}
+    return {k: e[k] for k in ("id", "sid", "call", "rel", "lenient", "obs", "judge")}
 
 
 def py_conforms(exp, obs):
@@ -196,7 +198,7 @@ def replay_payload_factory(rec):
             steps.append(ev[b])
         steps.append(e)
         return {"kind": "qc", "property": None, "clause": v["clause"], "signature": v["sig"], "count": v["count"],
-                "steps": [{k: s[k] for k in ("call", "rel", "lenient", "conc", "obs")} for s in steps]}
+                "steps": [{k: s[k] for k in ("call", "rel", "lenient", "conc", "obs", "judge")} for s in steps]}
     return payload
 
 
@@ -373,6 +375,87 @@ def extra_carriers(ctx, rec):
                 steps.append(({"kind": "recall", "i": 0, "k": 0}, json.loads(json.dumps(c)),
                               {"conc": v, "variant": True, "variant_label": label}))
             rec.session(steps, base_conc)
+    # sub-second time axes: outside the domain of the rate / window rules (whole-second steps), but the carriers
+    # of one and the same axis must still agree with each other
+    for fn in ("roc", "flat", "att", "speed"):
+        for rep in range(ctx.pick(8, 60)):
+            try:
+                c = subsecond_call(g, fn)
+            except ValueError:
+                continue
+            conc = dict(CONCS[0], tunit=0.5)
+            steps = [({"kind": "base", "i": 0, "k": 0}, c, {"judge": "rel"})]
+            for tc in ["dt64us", "dt64ms", "pydt", "pdts", "dtindex", "series_naive", "series_utc", "dtindex_utc",
+                       "epoch_list", "epoch_f64"]:
+                steps.append(({"kind": "recall", "i": 0, "k": 0}, json.loads(json.dumps(c)),
+                              {"conc": {"tc": tc}, "variant": True, "variant_label": "subsecond,tc=" + tc, "judge": "rel"}))
+            rec.session(steps, conc)
+
+
+def subsecond_call(g, fn):
+    """a call of a time-based test on a sub-second axis (abstract time unit = half a second)"""
+    c = g.base(fn)
+    n = g.r.randint(4, 9)
+    step = g.r.choice([3, 3, 5, 1])
+    off = g.r.choice([0, 1])
+    if fn == "flat" or g.r.random() < 0.5:
+        c["t"] = [off + i * step for i in range(n)]
+    else:
+        c["t"], cur = [], off
+        for _ in range(n):
+            c["t"].append(cur)
+            cur += g.r.choice([1, 3, 5])
+    if fn == "speed":
+        c["lon"] = [g.r.choice([0, 2, 1]) for _ in range(n)]
+        c["lat"] = [g.r.choice([0, 2, 1]) for _ in range(n)]
+        c["hop"] = gen_qc.hops(c["lon"], c["lat"])
+        c["p"] = {"st": [g.r.choice([20000, 40000, 60000]), 1], "ft": [g.r.choice([50000, 80000, 120000]), 1]}
+    else:
+        c["x"] = [g.r.choice([0, 0, 3, 1, 6]) for _ in range(n)]
+    if fn == "att":
+        c["p"].update({"minperiod": gen_qc.NA, "period": g.r.choice([2, 3, 4]), "st": [1, 1], "ft": [1, 2]})
+    if fn == "flat":
+        c["p"].update({"st": g.r.choice([2, 3, 4]), "ft": g.r.choice([4, 5, 6])})
+    if fn == "roc":
+        dxs = [abs(c["x"][i] - c["x"][i - 1]) for i in range(1, n)]
+        c["p"]["thr"] = [2 * max(1, g.r.choice(dxs)), 3]
+    return c
+
+
+def extra_subsecond_shift(ctx, rec):
+    """C17: shifting every timestamp by a constant that is not a whole number of seconds (sub-second axes are
+    outside the domain of the rate rules, so only the invariance relation is judged)"""
+    g = gen_qc.Gen(ctx.seed + 61, size=8)
+    for fn in ("roc", "flat", "att", "speed"):
+        for rep in range(ctx.pick(10, 80)):
+            try:
+                c = subsecond_call(g, fn)
+            except ValueError:
+                continue
+            steps = [({"kind": "base", "i": 0, "k": 0}, c, {"judge": "rel"})]
+            for k in (1, 3, 7, 2 * 86400 + 1, -5):
+                d = json.loads(json.dumps(c))
+                d["t"] = [v + k for v in c["t"]]
+                steps.append(({"kind": "shiftt", "i": 0, "k": k}, d, {"judge": "rel"}))
+            rec.session(steps, dict(CONCS[rep % 2], tunit=0.5))
+
+
+def extra_purity(ctx, rec):
+    """C01: arguments unchanged / repeatability under every carrier (aliasing bugs depend on the carrier)"""
+    g = gen_qc.Gen(ctx.seed + 53, size=ctx.pick(6, 12))
+    datas = ["ma_nan", "ma_junk", "series", "series_idx", "f32", "list_none", "tuple_nan", "dask"]
+    times = ["dtindex", "series_naive", "series_utc", "epoch_f64", "epoch_list", "pydt", "dt64s"]
+    for fn in ALL_FNS:
+        for rep in range(ctx.pick(8, 40)):
+            c = g.base(fn)
+            if fn == "valid" and c["p"]["kind"] == "time":
+                continue
+            conc = dict(CONCS[rep % 2])
+            xc = datas[rep % len(datas)]
+            if (fn == "press" and xc == "list_none") or (fn == "valid" and xc in ("list_none", "tuple_nan")):
+                xc = "ma_junk"
+            conc.update({"xc": xc, "ac": datas[(rep + 3) % len(datas)], "tc": times[rep % len(times)]})
+            rec.session([({"kind": "base", "i": 0, "k": 0}, c)], conc)
 
 
 # --------------------------------------------------------------------------------------------- the plan
@@ -394,7 +477,7 @@ PLAN = {
     "C01": {"mc": T([M("all_recall", ALL_FNS, ["recall"], 2, budget=20000)],
                     [M("all_recall", ALL_FNS, ["recall"], 3, budget=150000)]),
             "random": {"fns": ALL_FNS, "count": (330, 4400), "kinds": ["recall"], "size": (10, 30)},
-            "extra": [extra_short_series]},
+            "extra": [extra_short_series, extra_purity]},
     "C02": {"mc": T([M("missing_a", ["gross", "valid", "spike", "roc", "flat", "dens", "loc", "clim"], [], 3, budget=20000),
                      M("missing_b", ["att", "speed"], [], 2, budget=6000)],
                     [M("missing_a", ["gross", "valid", "spike", "roc", "flat", "loc", "clim"], [], 5, big=True, budget=120000),
@@ -442,7 +525,8 @@ PLAN = {
                     [M("transforms", NOPRESS, ["shiftv", "negate", "shiftt", "shiftboth", "reverse"], 3, budget=120000),
                      M("locality", NOPRESS, ["perturb"], 3, budget=120000)]),
             "random": {"fns": NOPRESS, "count": (400, 6000),
-                       "kinds": ["shiftv", "negate", "shiftt", "shiftboth", "reverse", "perturb", "perturb"], "size": (8, 24)}},
+                       "kinds": ["shiftv", "negate", "shiftt", "shiftboth", "reverse", "perturb", "perturb"], "size": (8, 24)},
+            "extra": [extra_subsecond_shift]},
 }
 
 RULES = {
